@@ -260,6 +260,7 @@ def run(ctx):
     for m in repo.mod(MT).cls("MidiTrack").methods.values():
         ctx.touch(m)
     rule_stream(ctx)
+    rule_repeat(ctx)
     rule_constants(ctx)
     rule_header_body(ctx)
     rule_arguments(ctx)
@@ -318,6 +319,70 @@ def rule_stream(ctx, R="R-C16-3"):
             elif diff:
                 ok, why = False, diff
         ctx.check(ok, R, "stream[%s]" % label, fi.where(), "MidiTrack.play_Track(<%s>)" % label, why)
+
+
+def rule_repeat(ctx):
+    """A repeat count repeats the whole content: the same MidiTrack plays the track repeat + 1 times, and every
+    repetition starts where the previous one ended -- rests that end the track included."""
+    R = "R-C16-3"
+    repo = ctx.repo
+    mtci = repo.mod(MT).cls("MidiTrack")
+    fpt = repo.find_method(mtci, "play_Track")
+    summ = md.varbyte_summary(repo)
+    summ[NOTE + ".Note.__int__"] = lambda it, a, k, n: a[0].attrs["pitch"]
+    shapes = [([["N1", "R"]], None), ([["N1", "R"]], 13), ([["R", "N2"], ["N1", "R", "R"]], None), ([["N1", "N1"]], None), ([["R"]], None), ([["N1"], ["R"]], 5)]
+    for bars, ins in shapes:
+        for repeat in (1, 2):
+            sc = Scenario(bars, ins)
+            label = "%s%s x%d" % ("|".join(",".join(b) for b in bars), "" if ins is None else " +instr", repeat + 1)
+
+            def go(it, sc=sc, repeat=repeat):
+                md.install(it)
+                track, desc = build(repo, sc)
+                mt = AObj(mtci, {"delta_time": md.Delta(b"\x00")}, name="miditrack")
+                it.call_function(repo.find_method(mtci, "__init__"), [mt, 120], {})
+                for _ in range(repeat + 1):
+                    it.call_function(fpt, [mt, track], {})
+                return mt, track, desc
+            try:
+                paths = explore(lambda ch: Interp(repo, ch, summaries=summ, max_depth=30), go)
+            except CannotDecide as e:
+                raise AnalysisError("repeated track %s: %s" % (label, e))
+            ok, why = len(paths) == 1 and paths[0].kind == "return", "outcome %s" % [(p.kind, short(repr(p.value), 60)) for p in paths][:2]
+            if ok:
+                it = paths[0].interp
+                mt, track, desc = paths[0].value
+                ticks = it.__dict__.get("tick_syms", {})
+
+                def tickof(v):
+                    for sym, rf in ticks.values():
+                        if rf is not None and rf.same(RatFun(RatFun.of(288).num * v.den, v.num)):
+                            return Lin.of(sym)
+                    return Lin.of(Sym("unrounded(%r)" % (v,), 0, INF))
+                try:
+                    got = [e for e in decode(it, mt.attrs.get("track_data"), None) if e[1] in ("on", "off")]
+                    want, now = [], Lin({}, 0)
+                    for _ in range(repeat + 1):
+                        for meter, keyname, entries in desc:
+                            for k, v, notes, bpm in entries:
+                                t = tickof(v)
+                                want += [(now, "on", n) for n in notes] + [(now + t, "off", n) for n in notes]
+                                now = now + t
+                    if len(got) != len(want):
+                        ok, why = False, "%d note events written for %d expected" % (len(got), len(want))
+                    else:
+                        for i, ((gt, gk, gd), (wt, wk, n)) in enumerate(zip(got, want)):
+                            if gk != wk or not same_lin(it, gd[1], n.attrs["pitch"] + 12):
+                                ok, why = False, "note event #%d is %s of pitch %s, expected %s of %s + 12" % (i, gk, gd[1], wk, n.attrs["pitch"])
+                                break
+                            if not same_lin(it, gt, wt):
+                                ok, why = False, ("note event #%d (%s, repetition %d) is written at tick %s, the repeated content puts it at %s: "
+                                                  "the time of the rests that end the track is lost between repetitions" % (
+                                                      i, gk, 1 + i * (repeat + 1) // max(1, len(want)), it.resolve(Lin.of(gt)), Lin.of(wt)))
+                                break
+                except ValueError as e:
+                    ok, why = False, str(e)
+            ctx.check(ok, R, "repeat[%s]" % label, fpt.where(), "MidiTrack.play_Track(<%s>) %d times on one MidiTrack" % (label, repeat + 1), why)
 
 
 def rule_constants(ctx):
